@@ -77,6 +77,53 @@ Proof.
   - left. reflexivity.
 Qed.
 
+
+(* self-check of the reference codec on one packet of every kind: each permitted form is accepted
+   by the reference decoder and gives the packet back, with the following bytes left unread *)
+Local Open Scope string_scope.
+Definition selfcheck_packets : list (N * spkt) :=
+  let s := bytes_of_string in
+  [ (5, SConnect 5 true 30 [SessionExpiry 10; UserProperty (s "a") (s "b"); AuthMethod (s "m"); AuthData [1; 2]]
+           (s "cid") (Some (mkwill [WillDelay 5; PayloadFormat 1] (s "w/t") (s "bye") 1 true))
+           (Some (s "user")) (Some (s "pw")));
+    (4, SConnect 4 false 0 [] (s "") None None None);
+    (3, SConnect 3 true 60 [] (s "old") None (Some (s "u")) (Some [0; 255]));
+    (5, SConnack true 0 [AssignedClientId (s "x"); MaximumQoS 1; ReceiveMaximum 10]);
+    (4, SConnack false 5 []);
+    (5, SPublish true 2 true (s "a/b") 65535 [TopicAlias 3; UserProperty (s "k") (s "v"); SubscriptionId 268435455; ResponseTopic (s "r")] (s "hello"));
+    (5, SPublish false 0 false [] 0 [TopicAlias 1] []);
+    (4, SPublish false 1 false (s "t") 1 [] [0; 1; 2]);
+    (5, SAck KPuback 7 16 []); (5, SAck KPubrec 7 0 []); (5, SAck KPubrel 7 146 [ReasonString (s "why")]);
+    (5, SAck KPubcomp 1 0 [UserProperty (s "a") (s "b")]); (4, SAck KPubrel 9 0 []);
+    (5, SSubscribe 3 [SubscriptionId 200; UserProperty [] []] [mkfilter (s "a/#") 2 true false 1; mkfilter (s "b") 0 false true 2]);
+    (4, SSubscribe 3 [] [mkfilter (s "+/x") 1 false false 0]);
+    (5, SSuback 3 [ReasonString (s "r")] [0; 1; 2; 128; 162]); (4, SSuback 3 [] [0; 128]);
+    (5, SUnsubscribe 4 [UserProperty (s "k") (s "v")] [s "a"; s "b/#"]); (3, SUnsubscribe 4 [] [s "a"]);
+    (5, SUnsuback 4 [] [0; 17]); (4, SUnsuback 4 [] []);
+    (5, SPingreq); (4, SPingresp);
+    (5, SDisconnect 4 []); (5, SDisconnect 0 []); (5, SDisconnect 142 [SessionExpiry 0; ServerReference (s "other")]);
+    (4, SDisconnect 0 []);
+    (5, SAuth 0 []); (5, SAuth 24 [AuthMethod (s "SCRAM"); AuthData [9]]) ].
+
+Local Close Scope string_scope.
+
+Example C42_reference_codec_selfcheck :
+  forallb (fun vp => let '(v, p) := vp in
+     valid_packet v p &&
+     match spec_forms v p with
+     | [] => false
+     | forms => forallb (fun bs => match spec_decode_packet v (bs ++ [192; 0]) with
+                                   | Some (_, [192; 0]) => true
+                                   | _ => false
+                                   end) forms
+     end &&
+     forallb (fun bs => match spec_decode_packet v bs with
+                        | Some (q, []) => beq_bytes (full_body v q) (full_body v p)
+                        | _ => false
+                        end) (spec_forms v p))
+    selfcheck_packets = true.
+Proof. vm_compute. reflexivity. Qed.
+
 (* the repaired defects: before the fixes the short DISCONNECT lost its reason code and the short
    AUTH forms were rejected *)
 Example C42_prefix_refuted :
